@@ -147,7 +147,7 @@ class ScopeMap(ast.NodeVisitor):
         rng = ((node.lineno, node.col_offset), (node.end_lineno, node.end_col_offset))
         for g in gens:
             for n in ast.walk(g.target):
-                if isinstance(n, ast.Name):
+                if isinstance(n, ast.Name) and isinstance(n.ctx, ast.Store):     # tgt[0] only reads tgt
                     bound.add(n.id)
                     self.comp_targets[(n.lineno, n.col_offset)] = rng
         if own_table:
